@@ -105,11 +105,19 @@ def build(spec: dict) -> tuple[bytes, dict]:
     # ---- file objects
     objects = []  # (type, offset, size, allocated)
     fo_ptr = {}
+    far = spec.get("fo_far", 0)  # file objects far behind the tables (multi-GiB saved-state files): kept out of `out`
+    far_objects = []
     for e in entries:
         if e.get("fo"):
             vb = value_bytes(e)
-            o, sz = alloc(max(1, len(vb)))
-            out[o : o + len(vb)] = vb
+            if far:
+                sz = -(-max(1, len(vb)) // align) * align
+                o = far
+                far += sz + spec.get("gap", 0) * align
+                far_objects.append((o, vb))
+            else:
+                o, sz = alloc(max(1, len(vb)))
+                out[o : o + len(vb)] = vb
             objects.append([OT_FILE, o, sz, 1])
             fo_ptr[e["id"]] = (len(vb), o)
 
@@ -125,7 +133,9 @@ def build(spec: dict) -> tuple[bytes, dict]:
         for it in items:
             if it[0] == "free":
                 _, off, size = it
-                struct.pack_into("<HIHIIIB", buf, off, KT_FREE, size, 0, 0, 0, 0, 0)
+                # a freed entry may keep the parent reference it had (table index / offset that no longer resolve)
+                sp = tspec.get("free_stale_parent")
+                struct.pack_into("<HIHIIIB", buf, off, KT_FREE, size, sp[0] if sp else 0, sp[1] if sp else 0, 0, 0, 0)
                 for i in range(off + ENTRY_HDR, off + size):
                     buf[i] = 0xEE
                 continue
@@ -245,7 +255,7 @@ def build(spec: dict) -> tuple[bytes, dict]:
         return header_bytes(seq, ver, sig, ro, 0x1000, align)
     out[0:46] = hdr(s1, s1 > s2)
     out[0x1000:0x1000 + 46] = hdr(s2, s2 > s1)
-    meta = {"active_seq": max(s1, s2), "replay_log_offset": rl_off, "n_key_tables": len(tables)}
+    meta = {"active_seq": max(s1, s2), "replay_log_offset": rl_off, "n_key_tables": len(tables), "far_objects": far_objects}
     return bytes(out), meta
 
 
